@@ -10,4 +10,5 @@ CONSTANTS
   Alpha = "S"
   MaxLen = 3
   TailLen = 0
+  DeepReps = {}
 INVARIANT Emit
